@@ -1549,6 +1549,7 @@ def process_options(
         options.abs_custom_typeshed_dir = os.path.abspath(options.custom_typeshed_dir)
 
     # Set build flags.
+    state.find_occurrences = None
     if special_opts.find_occurrences:
         _find_occurrences = tuple(special_opts.find_occurrences.split("."))
         if len(_find_occurrences) < 2:
